@@ -636,6 +636,21 @@ func mentionsLen(v ssa.Value, d int) bool {
 		if bi, ok := x.Common().Value.(*ssa.Builtin); ok && (bi.Name() == "len" || bi.Name() == "cap") {
 			return true
 		}
+		if bi, ok := x.Common().Value.(*ssa.Builtin); ok && (bi.Name() == "min" || bi.Name() == "max") {
+			// min(...) is bounded by any length among its operands; max(...) only if all are
+			any, all := false, true
+			for _, a := range x.Common().Args {
+				if mentionsLen(a, d+1) {
+					any = true
+				} else if _, isC := a.(*ssa.Const); !isC {
+					all = false
+				}
+			}
+			if bi.Name() == "min" {
+				return any
+			}
+			return any && all
+		}
 		// Size()-style accessors of the repository returning a length
 		if h := staticCallee(x.Common()); h != nil && inRepo(h) && h.Blocks != nil {
 			for _, r := range returnsOf(h) {
@@ -703,9 +718,14 @@ func (p *Program) paramMayCarryClientInt(par *ssa.Parameter) bool {
 		if idx < 0 || idx >= len(args) {
 			return true
 		}
-		if _, isC := args[idx].(*ssa.Const); !isC {
-			return true
+		if _, isC := args[idx].(*ssa.Const); isC {
+			continue
 		}
+		// a bound computed from the length of existing data, or a counter of the caller's own loop
+		if mentionsLen(args[idx], 0) || localCounter(args[idx], 0) {
+			continue
+		}
+		return true
 	}
 	return n == 0
 }
